@@ -50,6 +50,7 @@ FIELDS["CFConfigMoves"] = {"self.q_vertex": ("self_q_vertex", "key"), "self.v_ti
                            "self.graph.vertices": ("self_graph_vertices", "set"), "self.graph.graph": ("self_graph_graph", "dictD")}
 SRC_CLASS = {"CFConfigMoves": "CFConfig"}          # a group that is translated from the source of another class (kept in a file of its own)
 CROSS = {"self_degrees": "self_divisor_degrees", "self_graph_graph": "self_divisor_graph_graph"}      # fields of self.divisor as seen from a CFConfig
+COPY_OK = False     # CFConfig.copy() has the expected one-line body (set in main)
 ENUMS = {}     # "OrientationState.NAME" -> int, read from the source of the enum class
 TARGETS = [
     ("chipfiring/CFDivisor.py", "CFDivisor", "is_effective"), ("chipfiring/CFDivisor.py", "CFDivisor", "get_degree"),
@@ -71,6 +72,7 @@ TARGETS = [
     ("chipfiring/CFConfig.py", "CFConfigMoves", "__init__"), ("chipfiring/CFConfig.py", "CFConfigMoves", "get_degree_at"), ("chipfiring/CFConfig.py", "CFConfigMoves", "is_non_negative"), ("chipfiring/CFConfig.py", "CFConfigMoves", "get_degree_sum"), ("chipfiring/CFConfig.py", "CFConfigMoves", "get_q_underlying_degree"),
     ("chipfiring/CFConfig.py", "CFConfigMoves", "_is_comparable_to"), ("chipfiring/CFConfig.py", "CFConfigMoves", "__eq__"), ("chipfiring/CFConfig.py", "CFConfigMoves", "__ge__"), ("chipfiring/CFConfig.py", "CFConfigMoves", "__le__"),
     ("chipfiring/CFConfig.py", "CFConfigMoves", "set_fire"), ("chipfiring/CFConfig.py", "CFConfigMoves", "lending_move"), ("chipfiring/CFConfig.py", "CFConfigMoves", "borrowing_move"),
+    ("chipfiring/CFConfig.py", "CFConfigMoves", "is_legal_set_firing"),
 ]
 class Unsupported(Exception): pass
 def bad(node, why=""): raise Unsupported("%s at line %s: %s" % (type(node).__name__, getattr(node, "lineno", "?"), why))
@@ -186,6 +188,19 @@ class Fn:
             import re as _re
             if c_[1] != "bool" or te_ != "Z" or any(_re.search(r"\b%s\b" % _re.escape(x_), look) for _, look in self.pending[n0:]): bad(e, "generator expression")
             return "(fold_left (fun a_ %s => if %s then (a_ + %s) else a_) (d_keys %s) 0)" % (x_, c_[0], el_, d_), "Z"
+        if isinstance(e, ast.Call) and isinstance(e.func, ast.Attribute) and isinstance(e.func.value, ast.Name) and self.env.get(e.func.value.id) == "cfgcopy" \
+                and DONE.get((self.cls, e.func.attr)) is not None and not e.keywords:
+            callee = DONE[(self.cls, e.func.attr)]; x = e.func.value.id
+            if callee.writes or callee.rty is None or callee.uses_order or callee.objargs or len(e.args) != len(callee.params): bad(e, "method of the copy")
+            args = [{"self_q_vertex": x + "_q_vertex", "self_v_tilde_vertices": x + "_v_tilde_vertices", "self_divisor_degrees": x + "_divisor_degrees"}.get(f_) for f_ in callee.reads]
+            if None in args: bad(e, "field of the copy")
+            for a_, (_, ty_) in zip(e.args, callee.params):
+                t_, tt_ = self.expr(a_)
+                if tt_ != ty_: bad(e, "argument type")
+                args.append(t_)
+            call = "%s_%s %s" % (self.cls, e.func.attr, " ".join(args))
+            if not callee.can_raise: return "(%s)" % call, callee.rty
+            t = self.fresh(); self.pending.append((t, "CALL_ " + call)); self.can_raise = True; return t, callee.rty
         if isinstance(e, ast.List) and not e.elts: return "(@nil (nat * Z))", "pairs"        # (only ever appended to with (name, int) pairs: checked at the append)
         if isinstance(e, ast.Call) and isinstance(e.func, ast.Name) and e.func.id == "isinstance" and len(e.args) == 2 and isinstance(e.args[0], ast.Name) \
                 and self.env.get(e.args[0].id) == "Z" and ast.unparse(e.args[1]) == "int": return "true", "bool"      # a parameter annotated int (assumption of the tie: callers respect the annotation)
@@ -293,6 +308,8 @@ class Fn:
             a, ta = self.expr(e.operand)
             if ta != "Z": bad(e)
             return "(- %s)" % a, "Z"
+        if isinstance(e, ast.UnaryOp) and isinstance(e.op, ast.Not) and isinstance(e.operand, ast.Name) and self.env.get(e.operand.id) in ("set", "edges", "pairs"):
+            return "(match %s with [] => true | _ :: _ => false end)" % e.operand.id, "bool"       # `not xs`: the collection is empty
         if isinstance(e, ast.UnaryOp) and isinstance(e.op, ast.Not):
             a, ta = self.expr(e.operand)
             if ta != "bool": bad(e, "not on " + ta)
@@ -429,6 +446,29 @@ class Fn:
             if self.rty not in (None, "bool"): bad(s, "returns of different types")
             self.rty = "bool"; self.env["other"] = "divparam3"; body = K()
             return "match other with None => RETB_ false RETE_ | Some (other_graph_vertices, other_graph_graph, other_degrees) =>\n  %s end" % body
+        if isinstance(s, ast.Assign) and len(s.targets) == 1 and isinstance(s.targets[0], ast.Name) and ast.unparse(s.value) == "self.copy()" and self.cls == "CFConfigMoves":
+            # CFConfig.copy() must be `return CFConfig(copy.deepcopy(self.divisor), self.q_vertex.name)` (checked against the source): the translated constructor on a divisor
+            # with the same dictionaries (deepcopy: equal values, independent objects - so what happens to the copy never reaches self, which is how a functional value behaves)
+            ctor = DONE.get(("CFConfigMoves", "__init__")); x = s.targets[0].id
+            if not COPY_OK or ctor is None or x in self.env or [p_ for p_, _ in ctor.params] != ["divisor_graph_vertices", "divisor_degrees", "q_name"]: bad(s, "copy()")
+            for f_ in ("self_graph_vertices", "self_divisor_degrees", "self_q_vertex", "self_divisor_graph_graph"):
+                if f_ not in self.reads: self.reads.append(f_)
+            self.env[x] = "cfgcopy"; self.can_raise = True; body = K()
+            return "match CFConfigMoves___init__ self_graph_vertices self_divisor_degrees self_q_vertex with PyExn _ => EXN_ | PyOk (%s_q_vertex, %s_v_tilde_vertices) =>\n  let %s_divisor_degrees := self_divisor_degrees in\n  %s end" % (x, x, x, body)
+        if isinstance(s, ast.Expr) and isinstance(s.value, ast.Call) and isinstance(s.value.func, ast.Attribute) and isinstance(s.value.func.value, ast.Name) \
+                and self.env.get(s.value.func.value.id) == "cfgcopy" and DONE.get((self.cls, s.value.func.attr)) is not None and not s.value.keywords:
+            # a mutator of this class called on the copy: only the copy's dictionary of chips changes
+            x = s.value.func.value.id; callee = DONE[(self.cls, s.value.func.attr)]
+            if callee.rty is not None or callee.writes != ["self_divisor_degrees"] or callee.objargs or len(s.value.args) != len(callee.params): bad(s, "method of the copy")
+            args = [{"self_q_vertex": x + "_q_vertex", "self_v_tilde_vertices": x + "_v_tilde_vertices", "self_divisor_degrees": x + "_divisor_degrees", "self_divisor_graph_graph": "self_divisor_graph_graph"}.get(f_) for f_ in callee.reads]
+            if None in args: bad(s, "field of the copy")
+            if callee.uses_order: self.uses_order = True; args.append("set_order")
+            for a_, (_, ty_) in zip(s.value.args, callee.params):
+                t_, tt_ = self.expr(a_)
+                if tt_ != ty_: bad(s, "argument type")
+                args.append(t_)
+            self.can_raise = True; pre = self.pending; self.pending = []; body = K(); self.pending = pre
+            return self.wrap("match %s_%s %s with PyExn _ => EXN_ | PyOk %s_divisor_degrees =>\n  %s end" % (self.cls, s.value.func.attr, " ".join(args), x, body))
         if isinstance(s, ast.Raise): self.can_raise = True; return "EXN_"
         if isinstance(s, ast.Return):
             if s.value is None: bad(s, "bare return")
@@ -758,7 +798,13 @@ def read_enums():
         if len(set(vals.values())) == len(vals) and set(vals) == {"OrientationState.NO_ORIENTATION", "OrientationState.SOURCE_TO_SINK", "OrientationState.SINK_TO_SOURCE"}: ENUMS.update(vals)
     except Exception: pass
 def main():
+    global COPY_OK
     failed = []
+    try:
+        t_ = ast.parse(open(os.path.join(REPO, "chipfiring/CFConfig.py")).read()); f_ = find(t_, "CFConfig", "copy")
+        b_ = [x for x in f_.body if not (isinstance(x, ast.Expr) and isinstance(x.value, ast.Constant))]
+        COPY_OK = len(b_) == 1 and ast.unparse(b_[0]) == "return CFConfig(copy.deepcopy(self.divisor), self.q_vertex.name)"
+    except Exception: COPY_OK = False
     read_enums()
     for cls in ("CFDivisor", "CFGraph", "CFiringScript", "CFConfig", "CFOrientation", "CFConfigMoves", "CFLaplacian", "DharAlgorithm"):
         out_path = os.path.join(os.path.dirname(OUT), "TranslatedImp%s.v" % cls)
